@@ -713,3 +713,6 @@ func sortedPairs(m map[pair]int) []pair {
 	})
 	return out
 }
+
+// ExistingIds lists the model's ids of a root store, sorted.
+func (e *Engine) ExistingIds(t string) []string { return e.existing(e.M, t) }
